@@ -19,6 +19,7 @@ package config
 import (
 	"fmt"
 	"net/url"
+	"slices"
 	"strings"
 
 	"github.com/dadrus/heimdall/internal/x"
@@ -53,16 +54,23 @@ func (r QueryParamsRemover) RemoveFrom(value string) string {
 		return value
 	}
 
-	query, err := url.ParseQuery(value)
-	if err != nil {
-		return value
+	// The query is processed pair by pair, so that the configured parameters are removed also
+	// if some other part of the query cannot be decoded, and everything else stays as received.
+	pairs := strings.Split(value, "&")
+	kept := make([]string, 0, len(pairs))
+
+	for _, pair := range pairs {
+		key, _, _ := strings.Cut(pair, "=")
+		if unescaped, err := url.QueryUnescape(key); err == nil {
+			key = unescaped
+		}
+
+		if !slices.Contains(r, key) {
+			kept = append(kept, pair)
+		}
 	}
 
-	for _, param := range r {
-		query.Del(param)
-	}
-
-	return query.Encode()
+	return strings.Join(kept, "&")
 }
 
 type URLRewriter struct {
